@@ -13,7 +13,8 @@ REQUIRED = ['ci_linear', 'ci_log', 'ci_contains', 'ci_nested', 'ci_exp_contains'
             'rd_ci_linear', 'ird_ci_linear', 'risk_ci_linear', 'ir_ci_linear', 'rr_ci_log', 'or_ci_log', 'irr_ci_log',
             'rd_indep_alpha', 'rr_indep_alpha', 'or_indep_alpha', 'irr_indep_alpha', 'ird_indep_alpha',
             'risk_ci_indep_alpha', 'ir_ci_indep_alpha', 'nnt_indep_alpha', 'rd_coherent', 'rr_coherent',
-            'ic_se', 'ic_se_nonneg', 'aipw_diff_def', 'tmle_ci_partial', 'tmle_z_at_005', 'tmle_z_full_refuted',
+            'ic_se', 'ic_se_nonneg', 'aipw_diff_def', 'aipw_rr_ic_partial', 'xfit_rr_ic_partial',
+            'aipw_rr_ic_full_refuted', 'xfit_rr_ic_full_refuted', 'tmle_ci_partial', 'tmle_z_at_005', 'tmle_z_full_refuted',
             'pool_reject_iff', 'pool_def', 'pool_var_nonneg', 'pool_agree', 'msm_var_nonneg', 'msm_mean_solves',
             'real_transc_ok', 'real_ratio_ci']
 RULE = ('alpha runs over a fixed grid (25 equally spaced values in (0,1), the extremes 1e-6/1e-3/0.999, and 0.05 with its '
@@ -312,6 +313,18 @@ def judge_rr_ic(chk, who, got_var, a, y, q1, q0, y1, y0, g1, g0, n, c):
           signature={'estimator': who, 'measure': 'risk_ratio', 'clause': 'ic_se'})
 
 
+def k_icrr(chk, drv, who, which, m1, m0, r1, r0, q1, q0, n, got_var, case):
+    """the model's per-row log-RR influence values (documented / the two known-finding code paths) reproduce the
+    variance the implementation reports"""
+    if drv is None:
+        return
+    rep, _ = drv.ask('icrr', which=which, m1=fx(m1), m0=fx(m0), r1=enc_list(r1, fx), r0=enc_list(r0, fx),
+                     q1=enc_list(q1, fx), q0=enc_list(q0, fx), n=int(n))
+    chk.k(rep['status'] == 'ok' and close(unfx(rep['var']), got_var, rtol=1e-9, atol=1e-18),
+          '%s: model log-RR influence values (%s) vs implementation variance' % (who, which),
+          {'case': case, 'model': rep, 'impl_var': got_var})
+
+
 def tmle_eic(pr, y):
     Q, Q1, Q0, H1, H0 = pr['Qstar'], pr['Qstar1'], pr['Qstar0'], pr['H1W'], pr['H0W']
     r = np.where(np.isnan(y), 0.0, y - Q)       # a row with a missing outcome contributes no residual term
@@ -369,6 +382,11 @@ def stream_tmle(chk, drv, rng, tier):
                               dict(case, clause='ic_se', measure=meas, got=se ** 2, documented=want),
                               signature={'estimator': 'TMLE', 'measure': meas, 'missing_outcome': bool(missing),
                                          'clause': 'ic_se'})
+                    yv = np.asarray(last.df['Y'], dtype=float)
+                    res = np.where(np.isnan(yv), 0.0, yv - pr['Qstar'])
+                    k_icrr(chk, drv, 'TMLE.risk_ratio', 'doc', float(pr['Qstar1'].mean()), float(pr['Qstar0'].mean()),
+                           pr['H1W'] * res, -pr['H0W'] * res, pr['Qstar1'], pr['Qstar0'], n,
+                           float(last.risk_ratio_se) ** 2, case)
                     if drv is not None:
                         rep_, _ = drv.ask('icse', ic=enc_opt(ic['risk_difference']), n=n)
                         chk.k(rep_['status'] == 'ok' and close(unfx(rep_['se']), last.risk_difference_se, rtol=1e-9),
@@ -553,6 +571,13 @@ def stream_calculators_ic(chk, drv, rng, tier):
             if splits is None:
                 rr, lv = aipw_calculator(y, a, q1, q0, g1, g0, difference=False)
                 judge_rr_ic(chk, 'aipw_calculator', float(lv), a, y, q1, q0, y1, y0, g1, g0, n, c)
+                k_icrr(chk, drv, 'aipw_calculator', 'aipw', float(q1.mean()), float(q0.mean()), a * (y - qa) / g1,
+                       (1 - a) * (y - qa) / g0, q1, q0, n, float(lv), c)
+        # one split: the cross-fit TMLE risk-ratio code path on all rows (model mirrors the code: finding F15)
+        one = np.zeros(n, dtype=int)
+        est1, var1 = tmle_calculator(y, q1, q0, qa, h1, h0, h1 + h0, one, measure='risk_ratio')
+        k_icrr(chk, drv, 'crossfit.tmle_calculator', 'xfit', float(q1.mean()), float(q0.mean()), h1 * (y - qa),
+               -h0 * (y - qa), q1, q0, n, float(var1), case)
 
 
 def msm_closed(a, y, w):
